@@ -3,6 +3,7 @@ module verif/lab
 go 1.20
 
 require (
+	github.com/ethereum/go-ethereum v1.10.22
 	github.com/inconshreveable/log15 v0.0.0-20201112154412-8562bdadbbac
 	github.com/syndtr/goleveldb v1.0.1-0.20210819022825-2ae1ddf74ef7
 	github.com/zenon-network/go-zenon v0.0.0
@@ -11,7 +12,6 @@ require (
 require (
 	github.com/btcsuite/btcd/btcutil v1.1.3 // indirect
 	github.com/deckarep/golang-set v1.8.0 // indirect
-	github.com/ethereum/go-ethereum v1.10.22 // indirect
 	github.com/go-stack/stack v1.8.1 // indirect
 	github.com/golang-collections/collections v0.0.0-20130729185459-604e922904d3 // indirect
 	github.com/golang/snappy v0.0.4 // indirect
